@@ -117,6 +117,18 @@ def main():
             elif rc == 2 and rc2 == 1:
                 print(f"[{prop}] plain view: {first[:200]}; the helper-inlined view of the same sources reports:")
                 rc, out, report = rc2, out2, report2
+        # a method of a package base class that a subclass newly overrides (not so in the reference tree): the rules judge the implementation they
+        # know; a silent pass would vouch for code they never looked at. (Overrides a rule handles explicitly have produced their verdict above.)
+        if rc == 0:
+            try:
+                from sa.renames import unknown_overrides
+
+                unk = unknown_overrides(program)
+            except Exception as e:  # pragma: no cover
+                unk = []
+            if unk:
+                out += f"ANALYSIS-ERROR property={prop} new override(s) of package methods that the rules do not model: {', '.join(unk[:5])}\n"
+                rc = 2
         sys.stdout.write(out)
         if report is not None:
             report.flush_evidence()
